@@ -124,6 +124,11 @@ def main():
                 notes[key] = "NOT reproducible in isolation: the outcome depended on earlier cases in the same process (history dependence, see C12)"
     new_classes = 0
     for key, vs in sorted(by_key.items()):
+        if "/harness-" in key:
+            # the property module itself says its own machinery (model, generated script, sanity condition) failed
+            print("HARNESS ERROR: %s (%d cases): %s" % (key, nin(vs), str(vs[0].get("detail"))[:300]))
+            status = max(status, 3)
+            continue
         if key in open_keys:
             print("KNOWN-FINDING: property=%s %s [%s; hit by %d explored cases]" % (pid, open_keys[key]["what"], key, nin(vs)))
             continue
@@ -145,7 +150,7 @@ def main():
     cov = rep["coverage"]
     ev = {"property_id": pid, "tier": tier, "seed": seed, "level": mod.LEVEL, "coverage": cov,
           "assumptions": rep.get("assumptions", []), "wall_s": round(wall, 2),
-          "violations": sum(nin(vs) for k, vs in by_key.items() if k not in open_keys),
+          "violations": sum(nin(vs) for k, vs in by_key.items() if k not in open_keys and "/harness-" not in k),
           "known_finding_hits": {k: nin(vs) for k, vs in by_key.items() if k in open_keys},
           "repo": repo}
     if not a.no_evidence:
